@@ -330,6 +330,38 @@ def run(ctx):
                 ok = bool(S & rmap[c])
                 ctx.ob('CODEC-ID', '%s:%s:%s' % (wname, '+'.join(sorted(S))[:60], c), ok, wf.loc(node),
                        'writer arm %s emits %s; reader maps %s to %s' % (sorted(S), c, c, sorted(rmap[c])) + ('' if ok else ' — the file would re-open as a DIFFERENT encoding'), None)
+        if n_pairs < 2:
+            # the writer's mapping may be a table of (subformat, code) rows searched by a loop instead of a switch: rows of every constant file-scope table of
+            # pairs the function refers to are arms as well (values only survive constant folding: the code is matched by value against the reader's named keys)
+            val2sub = {}
+            for k_ in subnames:
+                val2sub.setdefault(E[k_], set()).add(k_)
+            for x in wf.walk():
+                if x['k'] != 'DeclRefExpr' or x.get('dk') != 'global':
+                    continue
+                gl = [g_ for g_ in prog.globals if g_['name'] == x['n'] and g_.get('def', True) and g_.get('const') and isinstance(g_.get('init'), list)]
+                if not gl or not all(isinstance(r_, list) and len(r_) == 2 and all(isinstance(v_, int) for v_ in r_) for r_ in gl[0]['init']):
+                    continue
+                # which column is searched and which is handed out: the field compared with a parameter is the key, the field in a return statement the value
+                pn_ = {p_['n'] for p_ in wf.params}
+                mem = [m_ for m_ in wf.walk() if m_['k'] == 'MemberExpr' and any(y['k'] == 'DeclRefExpr' and y.get('n') == x['n'] for y in wf.walk(m_))]
+                keyf = [m_ for m_ in mem if any(a_['k'] == 'BinaryOperator' and a_.get('op') == '==' and any(y['k'] == 'DeclRefExpr' and y.get('n') in pn_ for y in wf.walk(a_)) for a_ in wf.ancestors(m_))]
+                valf = [m_ for m_ in mem if any(a_['k'] == 'ReturnStmt' for a_ in wf.ancestors(m_)) and m_ not in keyf]
+                if not keyf or not valf or keyf[0].get('off') == valf[0].get('off'):
+                    continue
+                ki, vi = (0, 1) if keyf[0].get('off', 0) < valf[0].get('off', 0) else (1, 0)
+                for r_ in gl[0]['init']:
+                    for (sv, cv) in ((r_[ki], r_[vi]),):
+                        S = val2sub.get(sv, set())
+                        cs = [c_ for c_ in rmap if E.get(c_) == cv]
+                        if not S or not cs:
+                            continue
+                        for c in sorted(cs):
+                            n_pairs += 1
+                            ok = bool(S & rmap[c])
+                            ctx.ob('CODEC-ID', '%s:%s:%s' % (wname, '+'.join(sorted(S))[:60], c), ok, wf.loc(x),
+                                   'row of table %s maps %s to %s; reader maps %s to %s' % (x['n'], sorted(S), c, c, sorted(rmap[c])) + ('' if ok else ' — the file would re-open as a DIFFERENT encoding'), None)
+                break
         ctx.require(n_pairs >= 2, 'CODEC-ID: no comparable arms between %s and %s' % (wname, rnames))
 
     from rules.C01 import varint_rule
